@@ -536,6 +536,54 @@ pub fn run(tier: &str, shard: Option<&str>) -> Report {
             }
         }
     }
+    // Two corrupted frames in a row: a longer one that cannot be repaired
+    // (two flips), then a shorter one with a single flip. Whatever comes out
+    // has to be a frame that is really there (or its one-bit repair).
+    if si == 0 {
+        let first = vec![0x48u8, 0x50, 0x21, 0x22, 0x24, 0x28, 0x11, 0x12, 0x14];
+        let second = vec![0x51u8, 0x52, 0x54];
+        let b1 = hdlc_body(&first, true);
+        let b2 = hdlc_body(&second, true);
+        for between in [1usize, 2] {
+            for (f1a, f1b) in [(3usize, 40usize), (10, 11), (0, 70)] {
+                for f2 in (0..b2.len().saturating_sub(9)).step_by(if thorough { 1 } else { 3 }) {
+                    for fix in [false, true] {
+                        let mut bits = FLAG.to_vec();
+                        let at1 = bits.len();
+                        bits.extend(&b1);
+                        for _ in 0..between {
+                            bits.extend(FLAG);
+                        }
+                        let at2 = bits.len();
+                        bits.extend(&b2);
+                        bits.extend(FLAG);
+                        bits[at1 + f1a] ^= 1;
+                        bits[at1 + f1b] ^= 1;
+                        bits[at2 + f2] ^= 1;
+                        let c = Case { bits, min: 2, max: 20, checksum: true, fix, chunks: vec![] };
+                        rep.evaluations += 1;
+                        rep.distinct_nontrivial += 1;
+                        match run_case(&c) {
+                            Err(m) => emit(&mut rep, if m.starts_with("panic") { "panic" } else { "error" }, format!("{}: {m}", c.to_json()), &c, None),
+                            Ok(got) => {
+                                for q in &got {
+                                    if !valid(&c.bits, q, true, fix) {
+                                        emit(
+                                            &mut rep,
+                                            "corrupt-frame-emitted",
+                                            format!("{} (two corrupted frames, flips at {f1a},{f1b} and {f2}): emitted {q:02x?}", c.to_json()),
+                                            &c,
+                                            None,
+                                        );
+                                    }
+                                }
+                            }
+                        }
+                    }
+                }
+            }
+        }
+    }
     rep.states = rep.evaluations;
     rep.transitions = rep.evaluations;
     rep.traces_validated = rep.evaluations;
